@@ -116,8 +116,11 @@ def run_case(case):
                 obs = observations(rows, adjust)
                 first = min(o[0] for o in obs)
                 lastobs = max(o[0] for o in obs)
-                for t in queries:
+                for qi, t in enumerate(queries):
                     exp, seen, filled = lookup(obs, t)
+                    if case.get('zones') and case['zones'][qi % len(case['zones'])]:
+                        t = t.tz_convert(case['zones'][qi % len(case['zones'])])     # the same instant, another time zone
+                        cls.add('query_in_other_time_zone')
                     got = {
                         'get_bid': ds.get_bid(t, a), 'get_ask': ds.get_ask(t, a),
                         'handler bid': dh.get_asset_latest_bid_price(t, a),
@@ -240,7 +243,8 @@ def cases(draw):
     cut = draw(st.sampled_from(qs))
     return {'symbols': syms, 'queries': qs, 'cut': cut, 'cut_mode': draw(st.sampled_from(['rewrite', 'delete', 'mix'])),
             'cut_seed': draw(st.integers(0, 1000)), 'cut_adjust': draw(st.booleans()), 'flags': flags,
-            'all_files': draw(st.sampled_from([False, False, True]))}
+            'all_files': draw(st.sampled_from([False, False, True])),
+            'zones': draw(st.lists(st.sampled_from([None, None, 'Europe/Berlin', 'America/New_York', 'Asia/Tokyo']), min_size=1, max_size=5))}
 
 
 PARTS = [
